@@ -61,3 +61,70 @@ Proof.
   - apply Rmult_le_pos; [exact Hp0|]. assert (exp (e - t) <= 1)%R; [|lra].
     rewrite <- exp_0. destruct (Req_dec (e - t) 0) as [->|Hne]; [lra|]. left. apply exp_increasing. lra.
 Qed.
+
+(* ---------- the convolution tree composes ALL the PRVs of a heterogeneous history (generated tree_level / tree_compose) ---------- *)
+Section Tree.
+Variable A : Type.
+Variable op : A -> A -> A.
+Variable e : A.
+Hypothesis op_assoc : forall a b c, op a (op b c) = op (op a b) c.
+Hypothesis op_comm : forall a b, op a b = op b a.
+Hypothesis op_unit : forall a, op a e = a.
+Definition tprod (l : list A) : A := fold_right op e l.
+Lemma tprod_app l1 l2 : tprod (l1 ++ l2) = op (tprod l1) (tprod l2).
+Proof.
+  induction l1 as [|a l1 IH]; [cbn; rewrite op_comm; now rewrite op_unit|].
+  change (tprod ((a :: l1) ++ l2)) with (op a (tprod (l1 ++ l2))). rewrite IH. change (tprod (a :: l1)) with (op a (tprod l1)). apply op_assoc.
+Qed.
+Lemma list_ind2 (P : list A -> Prop) : P [] -> (forall a, P [a]) -> (forall a b l, P l -> P (a :: b :: l)) -> forall l, P l.
+Proof.
+  intros H0 H1 H2. assert (G : forall l, P l /\ forall a, P (a :: l)).
+  { induction l as [|x l [IHa IHb]]; [split; auto|]. split; [apply IHb|]. intros a. apply H2. exact IHa. }
+  intros l. apply G.
+Qed.
+Lemma pairs_even l : Nat.even (length l) = true -> tprod (tree_pairs op l) = tprod l.
+Proof.
+  induction l as [| a | a b l IH] using list_ind2; intros H; [reflexivity|discriminate|].
+  change (tprod (tree_pairs op (a :: b :: l))) with (op (op a b) (tprod (tree_pairs op l))).
+  change (tprod (a :: b :: l)) with (op a (op b (tprod l))). rewrite (IH H). symmetry. apply op_assoc.
+Qed.
+Lemma pairs_length l : length (tree_pairs op l) = Nat.div2 (length l).
+Proof. induction l as [| a | a b l IH] using list_ind2; [reflexivity|reflexivity|]. cbn. now rewrite IH. Qed.
+Lemma rev_last_split (l : list A) : l <> [] -> exists l' x, l = l' ++ [x] /\ rev l = x :: rev l' /\ removelast l = l'.
+Proof.
+  intros H. destruct (exists_last H) as [l' [x E]]. exists l', x. subst l. repeat split.
+  - rewrite rev_app_distr. reflexivity.
+  - apply removelast_last.
+Qed.
+Lemma level_prod l : tprod (tree_level op l) = tprod l.
+Proof.
+  unfold tree_level. destruct (Nat.odd (length l)) eqn:E.
+  - destruct l as [|a l0]; [discriminate|]. destruct (rev_last_split (a :: l0) ltac:(discriminate)) as [l' [x [El [Er Erm]]]].
+    rewrite Er, Erm, El. rewrite !tprod_app. change (tprod [x]) with (op x e). rewrite op_unit.
+    rewrite pairs_even; [apply op_comm|].
+    rewrite El in E. rewrite app_length in E. cbn in E. rewrite Nat.add_1_r, Nat.odd_succ in E. exact E.
+  - apply pairs_even. unfold Nat.odd in E. now apply negb_false_iff in E.
+Qed.
+Lemma div2_lt n : (1 <= n)%nat -> (Nat.div2 n < n)%nat.
+Proof. intros H. apply Nat.lt_div2. lia. Qed.
+Lemma level_length l : (2 <= length l)%nat -> (1 <= length (tree_level op l) /\ length (tree_level op l) < length l)%nat.
+Proof.
+  intros H. unfold tree_level. destruct (Nat.odd (length l)) eqn:E.
+  - destruct l as [|a l0]; [cbn in H; lia|]. destruct (rev_last_split (a :: l0) ltac:(discriminate)) as [l' [x [El [Er Erm]]]].
+    rewrite Er, Erm. cbn [app]. change (length (x :: tree_pairs op l')) with (S (length (tree_pairs op l'))). rewrite pairs_length.
+    assert (HL : length (a :: l0) = S (length l')) by (rewrite El, app_length; cbn; lia).
+    rewrite HL in *. assert (1 <= length l')%nat by lia. pose proof (div2_lt (length l') ltac:(lia)). lia.
+  - rewrite pairs_length. pose proof (div2_lt (length l) ltac:(lia)).
+    destruct (length l) as [|[|n]] eqn:L; [lia|lia|]. cbn [Nat.div2]. split; [lia|]. cbn [Nat.div2] in H0. exact H0.
+Qed.
+(* for every number of PRVs (every tree shape), with enough fuel, the tree returns the composition of ALL of them *)
+Theorem tree_composes_all (fuel : nat) (l : list A) : l <> [] -> (length l <= fuel)%nat -> tree_compose op fuel l = Some (tprod l).
+Proof.
+  revert l. induction fuel as [|f IH]; intros l Hne Hl; [destruct l; [contradiction|cbn in Hl; lia]|].
+  destruct l as [|a [|b r]]; [contradiction| |].
+  - cbn. now rewrite op_unit.
+  - cbn [tree_compose]. destruct (level_length (a :: b :: r) ltac:(cbn; lia)) as [L1 L2].
+    rewrite IH; [now rewrite level_prod| |lia].
+    intros E. rewrite E in L1. cbn in L1. lia.
+Qed.
+End Tree.
